@@ -598,6 +598,21 @@ pub fn c07_oracle(bytes: &[u8], d: &Decoded, a: &RenameArgs, packet_level: bool,
         Ok(Ok(p)) => p,
         _ => return Ok(()),
     };
+    // the wrapper is also used on objects that were decompressed in place by an earlier edit
+    let prehistory = packet_level && d.msg.qd.first().map(|q| q.name.wire_len() % 2 == 0).unwrap_or(false);
+    if prehistory {
+        let ok = catch(|| {
+            let mut q = match pp.into_iter_question() {
+                Some(q) => q,
+                None => return false,
+            };
+            dnssector::DNSIterable::uncompress(&mut q).is_ok()
+        });
+        if ok != Ok(true) {
+            fail!("C07 prehistory-uncompress-fails", "{:?}; {}", ok, ctxs());
+        }
+        st.class("packet-level-after-in-place-decompression");
+    }
     let (res, after): (Result<Vec<u8>, String>, Option<dnssector::ParsedPacket>) = if packet_level {
         match catch(move || {
             let r = pp.rename_with_raw_names(&tw, &sw, a.suffix).map_err(|e| e.to_string());
@@ -812,6 +827,7 @@ pub fn check_c07(ctx: &Ctx, known: &KnownFindings) -> Report {
         "identity",
         "overflow-rejected",
         "packet-level-ok",
+        "packet-level-after-in-place-decompression",
         "rewritten-in:name1",
         "rewritten-in:mx",
         "rewritten-in:soa",
